@@ -999,7 +999,12 @@ def _work_par(case):
     signal.signal(signal.SIGALRM, _alarm)
     signal.alarm(180)
     try:
-        return oracle_par(case), run_real_par(case)
+        S, R = oracle_par(case), run_real_par(case)
+        if case.get("timeout") and R != S:
+            # on an oversubscribed machine a task that takes microseconds can still miss a 2 s deadline: look again with
+            # a deadline three times as long before calling it a difference (the slow inputs sleep for ten minutes)
+            R = run_real_par(dict(case, timeout=3 * case["timeout"]))
+        return S, R
     except JobTimeout:
         raise RuntimeError("watchdog: parallelise case did not finish in 180 s: " + str(case)) from None
     finally:
